@@ -37,13 +37,18 @@ class Member:
         self.drift_state = st
 
 
-def _states(ctx, n, fixed=()):
+def _states(ctx, n, fixed=(), concrete=False):
     out = []
     for i in range(n):
         if i < len(fixed):
             out.append(fixed[i])
         else:
-            out.append(ctx.state(f"s{i}"))
+            st = ctx.state(f"s{i}")
+            if concrete:
+                # a real None / "warning" / "drift" per path, as real members report (an identity test such as
+                # `state is None` cannot be followed on a proxy)
+                st = "drift" if state_is(st, "drift") else ("warning" if state_is(st, "warning") else None)
+            out.append(st)
     return out
 
 
@@ -51,10 +56,10 @@ def _count(states, what):
     return count(state_is(s, what) for s in states)
 
 
-def body_stateless(ctx, kind, n, flip=None):
+def body_stateless(ctx, kind, n, flip=None, concrete=False):
     from menelaus.ensemble import election as E
 
-    states = _states(ctx, n)
+    states = _states(ctx, n, concrete=concrete)
     if kind == "majority":
         el = E.SimpleMajorityElection()
     elif kind == "minimum":
@@ -111,13 +116,13 @@ def _spec_confirmed(states, counters, sens, wait):
     return verdict_drift, verdict_warn, newc
 
 
-def body_confirmed_step(ctx, n, fixed=()):
+def body_confirmed_step(ctx, n, fixed=(), concrete=False):
     from menelaus.ensemble import election as E
 
     sens = ctx.int("sensitivity")
     wait = ctx.int("wait_time")
     ctx.assume(wait >= 0)
-    states = _states(ctx, n, fixed)
+    states = _states(ctx, n, fixed, concrete=concrete)
     counters = [ctx.int(f"c{i}") for i in range(n)]
     for c in counters:
         ctx.assume((c >= 0) & (c <= wait))
@@ -164,6 +169,9 @@ def jobs(tier):
         for n in range(0, nmax + 1):
             out.append(Job(f"{kind}-n{n}", "checks.c13:body_stateless", {"kind": kind, "n": n},
                            expect=("none",) if n == 0 else ("drift", "none")))
+        for n in range(1, 4):
+            out.append(Job(f"{kind}-n{n}-concrete-states", "checks.c13:body_stateless", {"kind": kind, "n": n, "concrete": True},
+                           expect=("drift", "none")))
         for n in range(1, min(nmax, 4) + 1):
             for k in range(n):
                 out.append(Job(f"{kind}-mono-n{n}-flip{k}", "checks.c13:body_stateless",
@@ -175,6 +183,9 @@ def jobs(tier):
             out.append(Job(f"confirmed-step-n{n}-{'-'.join(str(f) for f in fixed) or 'free'}",
                            "checks.c13:body_confirmed_step", {"n": n, "fixed": list(fixed)},
                            opts={"validate": 1}))
+    for n in (1, 2):
+        out.append(Job(f"confirmed-step-n{n}-concrete-states", "checks.c13:body_confirmed_step", {"n": n, "concrete": True},
+                       opts={"validate": 1}))
     out.append(Job("confirmed-history-n1", "checks.c13:body_confirmed_history", {"n": 1, "calls": 3},
                    expect=("drift", "None")))
     if tier == "thorough":
